@@ -13,12 +13,12 @@ causes = {
  'C04': 'composite literal assigned to a struct variable replaces its storage (aliases lost: 140 of the keys are minimal histories of this one cause); parallel struct literals; append onto own prefix; method values bound late; method expression in a variable',
  'C05': 'assertion / type switch to script-defined interfaces ignores receiver kind, promotion and (when shadowed) signatures; promotion resolved depth-first instead of shallowest-first; method expressions through embedding; embedded interface fields; Stringer / error / Writer wrapping priorities',
  'C06': 'recover() value type; Panic.Value is a reflect.Value; deferred call arguments evaluated late; late-bound method values; re-panic skips remaining defers',
- 'C07': 'a declared script function returned by a script call and passed directly to a host function reaches the host as the interpreter node',
+ 'C07': 'a declared script function returned by a script call and passed directly to a host function reaches the host as the interpreter node; `m[k], s = host.F()` does not store into the map; `a, ok := host.F()` redeclaring a struct variable allocates a new one',
  'C08': '`go wk.run()` reads its receiver late; send operand of a select case partly evaluated; receive into a captured variable lost',
  'C09': '`ExecuteWithContext` after `Compile`: goroutine channel operations not cancellable',
  'C10': 'closures in variables and host wrappers dead after any cancel until the next Eval',
- 'C11': 'locals of top-level statement chunks live in the package frame (shadowing overwrites globals); redefined method ignored',
- 'C12': 'typed operands of a wrong type, nil for non-nillable types and non-integer constants accepted or rejected only at run time in many positions; int8/int16 boundary constants; `new(5)`; pointer-receiver interface assignment; imported package initialised before the importer is checked',
+ 'C11': 'locals of top-level statement chunks live in the package frame (shadowing overwrites globals); redefined method ignored; comma-ok map lookup in a top-level chunk panics ("nil type"); a top-level tuple definition redeclaring a variable of an earlier chunk shadows it',
+ 'C12': 'typed operands of a wrong type, nil for non-nillable types and non-integer constants accepted or rejected only at run time in many positions; int8/int16 boundary constants; `new(5)`; `x = f()` with two results; pointer-receiver interface assignment; imported package initialised before the importer is checked',
  'C13': '`log.Default()` / `slog.NewLogLogger` Fatal kill the host; package-level `flag` functions and `log.Default()` output use the host\'s',
  'C14': 'rounded non-dyadic float constants',
  'C15': 'dependencies through function bodies ignored; "earliest ready" rule; cross-file order; false definition loops',
